@@ -117,17 +117,17 @@ class PROP(Prop):
                         elif sc == "silent":
                             ops.append("call %s s" % mb.show_req(req)); exp.append("T:TimedOut")
                         elif sc == "slow_ok":
-                            ops.append("call %s w60:%s" % (mb.show_req(req), fr)); exp.append("OK:RHR:%d" % val)
+                            ops.append("call %s w150:%s" % (mb.show_req(req), fr)); exp.append("OK:RHR:%d" % val)
                         elif sc == "late":
-                            ops.append("call %s w450:%s" % (mb.show_req(req), fr)); exp.append("T:TimedOut")
+                            ops.append("call %s w1500:%s" % (mb.show_req(req), fr)); exp.append("T:TimedOut")
                     if "late" in scen:
                         # the late reply is what the next call reads first
                         exp[1] = "late"; exp[2] = "any"
-                    sync_cases.append(Case("SYNC %s 300 %d %s" % (proto, slave, " ; ".join(ops)), {"proto": proto, "sync": True, "exp": exp, "scen": scen}))
+                    sync_cases.append(Case("SYNC %s 1000 %d %s" % (proto, slave, " ; ".join(ops)), {"proto": proto, "sync": True, "exp": exp, "scen": scen}))
                     # the same with the timeout installed after connecting (set_timeout), and switched off again at the end
                     if rep == 0:
-                        ops2 = ["timeout 300"] + ops + ["timeout -"]
-                        sync_cases.append(Case("SYNC %s - %d %s" % (proto, slave, " ; ".join(ops2)), {"proto": proto, "sync": True, "exp": ["ok t=300"] + exp + ["ok t=-"], "scen": ["set"] + scen + ["reset"]}))
+                        ops2 = ["timeout 1000"] + ops + ["timeout -"]
+                        sync_cases.append(Case("SYNC %s - %d %s" % (proto, slave, " ; ".join(ops2)), {"proto": proto, "sync": True, "exp": ["ok t=1000"] + exp + ["ok t=-"], "scen": ["set"] + scen + ["reset"]}))
         # spread the slow live cases evenly over the shards
         step = max(1, len(cs) // (len(sync_cases) + 1))
         for i, sc in enumerate(sync_cases):
